@@ -69,6 +69,29 @@ class TxnType(DataflowTransactionContext):  # pylint: disable=too-few-public-met
     def _intersection(self, key: str, a: Set, b: Set) -> Set:
         return a & b
 
+    @staticmethod
+    def _get_typeenum_values(
+        compared_type: "TealerTransactionType",
+    ) -> Tuple[Set["TealerTransactionType"], Set["TealerTransactionType"]]:
+        """Return types for which `TypeEnum == compared_type` is true and types for which it is false.
+
+        ApplNoOp, ..., ApplUpdateApplication, ApplDeleteApplication and ApplCreation describe application
+        calls: they are possible when TypeEnum is `appl` and only then.
+
+        Args:
+            compared_type: The transaction type TypeEnum is compared with.
+
+        Returns:
+            Set of transaction types that make the comparison true and set of types that make it false.
+        """
+        true_values = set([compared_type])
+        false_values = set(TYPEENUM_TRANSACTION_TYPES) - set([compared_type])
+        if compared_type == TealerTransactionType.Appl:
+            true_values |= set(APPLICATION_TRANSACTION_TYPES)
+        else:
+            false_values |= set(APPLICATION_TRANSACTION_TYPES)
+        return true_values, false_values
+
     def _get_asserted_transaction_types(  # pylint: disable=too-many-branches, too-many-locals
         self, key: str, ins_stack_value: KnownStackValue
     ) -> Tuple[Set["TealerTransactionType"], Set["TealerTransactionType"]]:
@@ -163,16 +186,12 @@ class TxnType(DataflowTransactionContext):  # pylint: disable=too-few-public-met
                 compared_type = transaction_type_to_tealer_type(value_3)
                 # None: the constant is not a transaction type, nothing is known about the result.
                 if compared_type is not None:
-                    true_values, false_values = set([compared_type]), set(
-                        TYPEENUM_TRANSACTION_TYPES
-                    ) - set([compared_type])
+                    true_values, false_values = self._get_typeenum_values(compared_type)
             elif is_value_matches_key(key, arg2, TypeEnum) and value_2 is not None:
                 compared_type = transaction_type_to_tealer_type(value_2)
                 # None: the constant is not a transaction type, nothing is known about the result.
                 if compared_type is not None:
-                    true_values, false_values = set([compared_type]), set(
-                        TYPEENUM_TRANSACTION_TYPES
-                    ) - set([compared_type])
+                    true_values, false_values = self._get_typeenum_values(compared_type)
 
             if is_value_matches_key(key, arg1, OnCompletion) and value_3 is not None:
                 compared_on_completion = oncompletion_to_tealer_type(value_3)
